@@ -130,13 +130,23 @@ def analyse(name, fn, body):
     mean_id = norm(pargs[1])
     mean_init = ""
     if re.fullmatch(r"\w+", mean_id):
-        d = re.search(r"DenseVector\s+" + re.escape(mean_id) + r"\s*=\s*([^;]*);", body)
+        d = re.search(r"(?:const\s+)?(?:tapkee::)?(?:DenseVector|auto)\s*&?\s*" + re.escape(mean_id) + r"\s*=\s*([^;]*);", body)
         if d:
             mean_init = norm(d.group(1))
-        # the variable must not be assigned again or mutated through .array() / operator calls
-        if len(re.findall(r"\b" + re.escape(mean_id) + r"\s*[-+*/]?=[^=]", body)) > 1 or re.search(
-                r"\b" + re.escape(mean_id) + r"\s*\.", body):
-            raise TranslateError("%s (%s): mean variable is modified after its initialisation" % (name, fn))
+    # an identifier must denote the same value at both uses: neither the mean nor the matrix expression (nor the variable
+    # it is a member of) may be assigned, compound-assigned or mutated through a member call after its initialisation
+    for ident in {mean_id, norm(pargs[0]), norm(pargs[0]).split(".")[0]}:
+        if not re.fullmatch(r"[\w.]+", ident):
+            raise TranslateError("%s (%s): projection argument `%s` is not an identifier path" % (name, fn, ident))
+        pat = r"(?<![\w.])" + re.escape(ident) + r"(?:\s*\.\s*\w+(?:\s*\([^;()]*\))?)*\s*(?:[-+*/]|<<|>>)?=(?!=)"
+        writes = re.findall(pat, body)
+        allowed = 1 if "." not in ident else 0          # the declaration `T ident = …`
+        if len(writes) > allowed:
+            raise TranslateError("%s (%s): `%s` is modified after its initialisation (%d writes)" % (name, fn, ident, len(writes)))
+        if re.search(r"(?<![\w.])" + re.escape(ident) + r"\s*\.\s*(?:col|row|array|noalias|setZero|setConstant|swap|resize|"
+                     r"conservativeResize|transposeInPlace|normalize|block|topRows|leftCols|rightCols)\s*\([^;]*?\)[^;]*?"
+                     r"(?:[-+*/]?=(?!=)|\.setZero|\.normalize)", body):
+            raise TranslateError("%s (%s): `%s` is mutated through a member call" % (name, fn, ident))
     return ("matrix", norm(eargs[0]), norm(eargs[1]), norm(pargs[0]), mean_id, mean_init)
 
 
